@@ -4,9 +4,13 @@ from props.ws_streams import *  # noqa: F401,F403
 from props import ws_streams as S
 
 OWN = {"5", "6", "7", "10", "11", "panic"}
-RULE = 'scripts: sequences (length 2 and 3 sampled, thorough also 4; random up to 40) over 16 peer events {data, ping, pong, valid/empty/1-byte/bad-code/bad-utf8 close, 4 kinds of violation, EOF, transport error} and 13 local calls {read frame/message blocking/async, write, flush, close, caller-built ping} from 5 start states; plus sampled conforming/violation/write streams. distinct = model states; non-trivial = not (Active with nothing pending)'
+RULE = 'scripts: sequences (length 2 and 3 sampled, thorough also 4; random up to 40) over 16 peer events {data, ping, pong, valid/empty/1-byte/bad-code/bad-utf8 close, 4 kinds of violation, EOF, transport error} and 13 local calls {read frame/message blocking/async, write, flush, close, caller-built ping} from 5 start states; plus sampled conforming/violation/write streams; plus AsyncClose with its flush deferred on the real adapter (real socket) followed by writes / a second close before the poll. distinct = model states; non-trivial = not (Active with nothing pending)'
 
 
 def generate(tier, seed):
     rng = random.Random(seed)
-    return S.all_streams(rng, tier == "quick", "C08")
+    # the closing handshake started locally while the Close frame's flush is still in the poller: only the real adapter defers
+    # writes, so these scripts run on the real-socket driver of C17 (its clause 6: a write accepted / a second Close queued /
+    # data after our Close while State() should already say closed-by-us)
+    from props import C17
+    return S.all_streams(rng, tier == "quick", "C08") + [("close-in-flight", "wsasync", C17.close_cases())]
